@@ -199,11 +199,19 @@ func runTopoHistory(seed uint64, idx int) (in sx.V, out sx.V, tags []string) {
 	if r.Chance(30) {
 		cfg.timeout = true
 	}
+	if r.Chance(30) {
+		// two connections per node (single-key requests only, see the loop suite): a pool that is
+		// closed or re-created by the ticker then holds a rotated list of several connections
+		cfg.maxConns, cfg.single = 2, true
+	}
 	w, err := newWorld(cfg)
 	if err != nil {
 		return sx.L(), sx.L(sx.S("setup-error")), nil
 	}
 	defer w.s.Close()
+	if cfg.single {
+		w.tagset["two-connections-per-node"] = true
+	}
 	t := &topo{}
 	for i, a := range nodes {
 		t.nodes = append(t.nodes, tnode{addr: a, present: true, lo: i * 4096, hi: i*4096 + 4095})
